@@ -344,6 +344,14 @@ static void sample_state(void) {
         }
     }
     eb_printf("\"sigmask\":\"%016llx\",\"sigact\":\"%016llx\",", (unsigned long long) mh, (unsigned long long) ah);
+    /* signals pending for this thread or the process (a blocked signal the call generated and left behind is residue) */
+    sigset_t pend;
+    unsigned long long pm = 0;
+    sigemptyset(&pend);
+    sigpending(&pend);
+    for (int sg = 1; sg < 65; sg++)
+        if (sigismember(&pend, sg) == 1) pm |= 1ULL << (sg - 1);
+    eb_printf("\"sigpend\":\"%016llx\",", pm);
     uid_t r, e, s;
     gid_t gr, ge, gs;
     getresuid(&r, &e, &s);
